@@ -68,6 +68,7 @@ type rpcState struct {
 	CutAt        int // offset at which the request body was cut (-1 none)
 	CutKind      string
 	orig         origRequest
+	respEndLen   int      // payload length of the backend's end-of-stream / trailer frame (0: none)
 	respLen      int      // length of the body the backend rendered (for fault enumeration)
 	respComp     string   // compression the backend used
 	respPayloads [][]byte // wire payloads of the backend's data frames
